@@ -118,7 +118,56 @@ def main():
         except Exception as e:  # noqa
             rec["error"] = "%s: %s" % (type(e).__name__, e)
         cubes.append(rec)
-    print("@@RESULT@@" + json.dumps(dict(cases=out, cubes=cubes, k06=1 - 0.4, k14=1 + 0.4)))
+    # the accessor with groups and a calibration window: every (pixel, group) against the definition evaluated on that
+    # group's members inside the window
+    acc = []
+    for c in P.get("accessor", []):
+        rec = dict(failures=[], compared=0)
+        try:
+            data = np.array(c["cube"], dtype=c["dtype"])             # (t, y, x)
+            nd = float(c["nodata"])
+            t = pd.DatetimeIndex(c["time"])
+            da = xr.DataArray(data, dims=("time", "y", "x"), coords={"time": t}, attrs={"nodata": nd})
+            kw = {}
+            if c.get("begin"):
+                kw["calibration_begin"] = c["begin"]
+            if c.get("end"):
+                kw["calibration_end"] = c["end"]
+            groups = c.get("groups")
+            r = da.hdc.algo.spi(groups=groups, **kw).transpose("time", "y", "x").values
+            lo = pd.Timestamp(c["begin"]) if c.get("begin") else t[0]
+            hi = pd.Timestamp(c["end"]) if c.get("end") else t[-1]
+            glist = groups if groups is not None else [0] * len(t)
+            for g in sorted(set(glist)):
+                ix = [i for i, v in enumerate(glist) if v == g]
+                inwin = [k for k, i in enumerate(ix) if lo <= t[i] <= hi]
+                if len(inwin) < 2:
+                    continue
+                c0, c1 = inwin[0], inwin[-1] + 1
+                for a in range(data.shape[1]):
+                    for b in range(data.shape[2]):
+                        x = data[ix, a, b].astype("float64")
+                        ref, info = reference(x, nd, c0, c1, c["dtype"] == "float32")
+                        if ref is None:
+                            continue
+                        got = r[ix, a, b]
+                        rec["compared"] += 1
+                        for k, (o, w_) in enumerate(zip(got, ref)):
+                            if w_ is None:
+                                ok = int(o) == int(nd) or info.get("alpha") is None
+                            elif w_ != w_ or abs(w_) > 7000:
+                                ok = True
+                            else:
+                                tol = 3 if c["dtype"] == "float32" else 1
+                                ok = abs(int(o) - w_) <= tol + 0.5 and int(o) != int(nd)
+                            if not ok:
+                                rec["failures"].append(dict(group=str(g), pixel=[a, b], step=int(ix[k]), time=str(t[ix[k]]), x=float(x[k]), spi=int(o),
+                                                            definition=w_, window=[c0, c1]))
+                                break
+        except Exception as e:  # noqa
+            rec["error"] = "%s: %s" % (type(e).__name__, e)
+        acc.append(rec)
+    print("@@RESULT@@" + json.dumps(dict(cases=out, cubes=cubes, accessor=acc, k06=1 - 0.4, k14=1 + 0.4)))
 
 
 main()
